@@ -109,6 +109,12 @@ class RequireWalker(lua.BaseASTWalker):
                 use_game_loop = arg_exps[1].value.fields[0].exp.value
 
             yield (require_path, use_game_loop, self._tokens[node.start_pos])
+        else:
+            # Some other call: look for require() calls in its prefix and
+            # arguments, such as print(require("a")) or require("a").f().
+            for field in node._fields:
+                for t in self._walk(getattr(node, field)):
+                    yield t
 
 
 def _evaluate_require(ast, file_path, package_lua, lua_path=None):
